@@ -60,6 +60,21 @@ Proof. exact refuted_nog. Qed.
 Theorem c03_outcome_refuted_upfilter_reset : ~ c03_exactly_one_outcome_statement src_no_direct_reset.
 Proof. exact refuted_upf. Qed.
 
+(* the global timer callback ends when it loses the CAS on upstreamResponseReceived (switch read from the source on this run).
+   If it went on unless the reply had started downstream (switch set back), an in-time response held by the send filters would be
+   thrown away: the answered stream is reset, UpstreamGlobalTimeout raised, and processError of phase UpFilter leaves the state
+   machine - no reply, never cleaned *)
+Theorem c03_global_timer_stops_on_lost_cas : global_lost_cas_stops proxy_src = true.
+Proof. exact (eq_refl true). Qed.
+Example c03_global_timer_after_answer :
+  wdone (final src_global_goes_on plain_cfg sched_answered_then_global) = true /\
+  cleaned (final src_global_goes_on plain_cfg sched_answered_then_global) = false /\
+  g_started (summ src_global_goes_on plain_cfg sched_answered_then_global) = false /\
+  quiescent (final src_global_goes_on plain_cfg sched_answered_then_global) = true /\
+  cleaned (final src_tree plain_cfg sched_answered_then_global) = true /\
+  g_reply_kind (summ src_tree plain_cfg sched_answered_then_global) = Some (KUp, 200).
+Proof. exact witness_global_after_answer. Qed.
+
 (* strongest true restriction: the three patterns above (flagged in the state: the outer loop ran out / a retry started with no
    global timer armed / processError of phase UpFilter consumed an upstream reset and a direct response at once) are the ONLY
    ways to end without an explained outcome *)
